@@ -3,15 +3,20 @@ module verif/harness
 go 1.23.0
 
 require (
+	github.com/RoaringBitmap/roaring v1.9.4
 	github.com/akrennmair/updog v0.0.0
 	go.etcd.io/bbolt v1.4.0
 )
 
 require (
-	github.com/RoaringBitmap/roaring v1.9.4 // indirect
 	github.com/bits-and-blooms/bitset v1.21.0 // indirect
 	github.com/cespare/xxhash/v2 v2.3.0 // indirect
+	golang.org/x/net v0.35.0 // indirect
 	golang.org/x/sys v0.30.0 // indirect
+	golang.org/x/text v0.22.0 // indirect
+	google.golang.org/genproto/googleapis/rpc v0.0.0-20250303144028-a0af3efb3deb // indirect
+	google.golang.org/grpc v1.70.0 // indirect
+	google.golang.org/protobuf v1.36.5 // indirect
 )
 
 replace github.com/akrennmair/updog => /repo
